@@ -236,7 +236,7 @@ class Report:
         self.harnesses = 0
         self.samples = []
         self.solver = dict(queries=0, unsat=0, sat=0, unknown=0, syntactic=0, solver_s=0.0,
-                           feas_queries=0, feas_s=0.0)
+                           feas_queries=0, feas_s=0.0, cross_checked=0, cross_agree=0, cross_inconclusive=0, cross_disagree=0)
         self.functions = set()
         self.bounds = {}
         self.assumptions = []
